@@ -41,22 +41,33 @@ func c15apiMix(rep *vh.Report, seed uint64, idx int) {
 	}
 	port := freeTCPPort()
 	eps = append(eps, gomavlib.EndpointTCPServer{Address: fmt.Sprintf("127.0.0.1:%d", port)})
-	var outKey *frame.V2Key
-	if r.Chance(1, 3) || k == 64 {
-		outKey = frame.NewV2Key(r.Bytes(32))
+	var outKey, inKey *frame.V2Key
+	keyRaw := r.Bytes(32)
+	// every fourth run: a node that signs and verifies with one key, peers that sign with it (their frames are accepted:
+	// the reader's replay state is live while the writers sign)
+	bothKeys := idx%4 == 1
+	if r.Chance(1, 3) || k == 64 || bothKeys {
+		outKey = frame.NewV2Key(keyRaw)
+	}
+	if bothKeys {
+		inKey = outKey
 	}
 	// in half of the runs the peers sign everything they send (a router in a signed network without keys of its own)
-	allSigned := idx%2 == 0
+	allSigned := idx%2 == 0 || bothKeys
 	// every third run the application's own writers are slow, so that the queues have room for what the consumer forwards
 	// (otherwise most forwarded frames are discarded at the full queues and never reach a writer goroutine)
 	router := idx%3 == 1
-	node := &gomavlib.Node{Endpoints: eps, Dialect: testDialect, OutVersion: gomavlib.V2, OutSystemID: 51, OutKey: outKey,
+	node := &gomavlib.Node{Endpoints: eps, Dialect: testDialect, OutVersion: gomavlib.V2, OutSystemID: 51, OutKey: outKey, InKey: inKey,
 		HeartbeatPeriod: 5 * time.Millisecond, StreamRequestEnable: true, IdleTimeout: time.Second, WriteTimeout: 200 * time.Millisecond}
 	if err := node.Initialize(); err != nil {
 		rep.Inconclusive("C15: " + err.Error())
 		return
 	}
 	peerKey := r.Bytes(32) // peers sign some of what they send
+	if bothKeys {
+		peerKey = keyRaw
+		rep.Count("api_mix_runs_with_in_and_out_key", 1)
+	}
 	cons := newConsumer(rep, "C15", "mix", node)
 	cons.noAutomaton = true
 	var fwd int64
